@@ -476,6 +476,83 @@ def m_take(it, callee, args, m):
     return LazyIter(gen())
 
 
+def m_take_while(it, callee, args, m):
+    inner, clos = to_iter(args[0]), args[1]
+
+    def gen():
+        while True:
+            x = inner.next(it)
+            if x is None:
+                return
+            if not call_pred(it, clos, [Ref(Cell(x))]):
+                return
+            yield x
+    return LazyIter(gen())
+
+
+def m_skip_while(it, callee, args, m):
+    inner, clos = to_iter(args[0]), args[1]
+
+    def gen():
+        skipping = True
+        while True:
+            x = inner.next(it)
+            if x is None:
+                return
+            if skipping and call_pred(it, clos, [Ref(Cell(x))]):
+                continue
+            skipping = False
+            yield x
+    return LazyIter(gen())
+
+
+def m_nth(it, callee, args, m):
+    inner = to_iter(args[0])
+    k = concretise(it, args[1])
+    x = None
+    for _ in range(k + 1):
+        x = inner.next(it)
+        if x is None:
+            return NONE()
+    return some(x)
+
+
+def m_sum_usize(it, callee, args, m):
+    total = z3.BitVecVal(0, 64)
+    for x in drain(to_iter(args[0]), it):
+        total = total + deref(x).t
+    return Int(total)
+
+
+def m_fold(it, callee, args, m):
+    acc = args[1]
+    for x in drain(to_iter(args[0]), it):
+        acc = it.call_closure(args[2], [acc, x])
+    return acc
+
+
+def m_iter_max(it, callee, args, m):
+    xs = [deref(x) for x in drain(to_iter(args[0]), it)]
+    if not xs:
+        return NONE()
+    best = xs[0]
+    for x in xs[1:]:
+        if not int_lt(it, x, best):
+            best = x
+    return some(best)
+
+
+def m_iter_min(it, callee, args, m):
+    xs = [deref(x) for x in drain(to_iter(args[0]), it)]
+    if not xs:
+        return NONE()
+    best = xs[0]
+    for x in xs[1:]:
+        if int_lt(it, x, best):
+            best = x
+    return some(best)
+
+
 def m_cloned(it, callee, args, m):
     inner = to_iter(args[0])
 
@@ -1529,6 +1606,13 @@ MODELS = [
     (IT + r"::skip$", m_skip),
     (IT + r"::take$", m_take),
     (IT + r"::(cloned|copied)::<", m_cloned),
+    (IT + r"::take_while::<", m_take_while),
+    (IT + r"::skip_while::<", m_skip_while),
+    (IT + r"::nth$", m_nth),
+    (IT + r"::sum::<usize>$", m_sum_usize),
+    (IT + r"::fold::<", m_fold),
+    (IT + r"::max$", m_iter_max),
+    (IT + r"::min$", m_iter_min),
     (IT + r"::chain::<", m_chain),
     (IT + r"::next$", m_next),
     (IT + r"::next_back$", m_next_back),
